@@ -2,7 +2,7 @@ SPECIFICATION Spec
 CONSTANTS
   RepAll = TRUE
   Mode = "mc"
-  MaxNodes = 7
+  MaxNodes = 4
   Enabled = {"Module", "Fn", "Head", "Const", "Struct", "Opaque", "Word", "Import", "Param", "Member", "TyPrim", "Int", "Loop"}
   FlagSets <- FlagSets_all
   VarForms <- VarForms_init
